@@ -18,7 +18,7 @@ import (
 func init() {
 	Register(&Property{
 		ID:    "C40",
-		Floor: 30,
+		Floor: 48,
 		Clauses: "html escaping, tables read from source: escapedChars contains & < > \"; every character of escapedChars has a case in escape()'s switch (so the default panic is unreachable) and " +
 			"each case's replacement is an entity that the decoder maps back to that character (named: value in the `entity` map literal under the key with ';'; numeric: decimal/hex value equal to the character and outside the ranges unescapeEntity remaps); " +
 			"the same for escapeComment's cases; escape/EscapeString scan with exactly escapedChars and escapeCommentString's fast-path set equals escapeComment's case set; unescapeEntity consults the entity map and unescape calls it only at a '&' byte; " +
@@ -44,7 +44,7 @@ func c40(c *Ctx) {
 		c.Check(strings.IndexByte(set, ch) >= 0, "escape-table", fmt.Sprintf("escapedChars contains %q", ch), token.NoPos, "",
 			fmt.Sprintf("%q would be written unescaped into text, attribute values or doctype names", ch))
 	}
-	entity, okEnt := c.P.HxMapLit("html.entity")
+	entity, okEnt := c.P.HtmMapLit("html.entity")
 	_, entPk := c.P.VarDecl("html.entity")
 	if !okEnt || len(entity) < 1000 {
 		c.Undecided("anchor", "html.entity map literal", fmt.Sprintf("%d entries read", len(entity)))
@@ -123,7 +123,7 @@ func c40EscapeSwitch(c *Ctx, fnName, mustCover string, decode func(string) (rune
 	if fn == nil {
 		return ""
 	}
-	sws := c.P.HxSwitches(fnName, HxIsIndexOf)
+	sws := c.P.HtmSwitches(fnName, HtmIsIndexOf)
 	if len(sws) != 1 {
 		c.Undecided(rule, fnName+": one switch over s[i]", fmt.Sprintf("found %d", len(sws)))
 		return ""
@@ -190,13 +190,13 @@ func c40IndexAnySet(c *Ctx, fnName, set string, min int) {
 	}
 	n := 0
 	bad := ""
-	HxEach(fn, func(in ssa.Instruction) {
+	HtmEach(fn, func(in ssa.Instruction) {
 		call, ok := in.(*ssa.Call)
 		if !ok || CalleeName(&call.Call) != "strings.IndexAny" {
 			return
 		}
 		n++
-		s, isConst := HxConstStr(call.Call.Args[1])
+		s, isConst := HtmConstStr(call.Call.Args[1])
 		if !isConst || norm(s) != norm(set) {
 			bad = "a scan uses " + Term(call.Call.Args[1])
 		}
@@ -213,7 +213,7 @@ func c40Unescape(c *Ctx) {
 	fn := c.MustFn(name)
 	if fn != nil {
 		n := 0
-		HxEach(fn, func(in ssa.Instruction) {
+		HtmEach(fn, func(in ssa.Instruction) {
 			if lk, ok := in.(*ssa.Lookup); ok {
 				if u, ok := lk.X.(*ssa.UnOp); ok {
 					if g, ok := u.X.(*ssa.Global); ok && g.Name() == "entity" {
@@ -259,7 +259,7 @@ func c40FieldLoad(c *Ctx, v ssa.Value, typeQ, field string) (ssa.Value, bool) {
 		}
 		return types.Identical(t, obj.Type())
 	}
-	switch x := HxStrip(v).(type) {
+	switch x := HtmStrip(v).(type) {
 	case *ssa.UnOp:
 		if fa, ok := x.X.(*ssa.FieldAddr); ok && x.Op == token.MUL && same(fa.X.Type()) {
 			st := obj.Type().Underlying().(*types.Struct)
@@ -281,7 +281,7 @@ func c40FieldLoad(c *Ctx, v ssa.Value, typeQ, field string) (ssa.Value, bool) {
 // c40StringWrites lists the calls of fn that hand a string straight to a writer (WriteString / Write / io.WriteString / Fprint*).
 func c40StringWrites(fn *ssa.Function) []*ssa.Call {
 	var out []*ssa.Call
-	HxEach(fn, func(in ssa.Instruction) {
+	HtmEach(fn, func(in ssa.Instruction) {
 		call, ok := in.(*ssa.Call)
 		if !ok {
 			return
@@ -387,7 +387,7 @@ func c40Token(c *Ctx) {
 	// every use of t.Data inside String is an argument of EscapeString / escapeCommentString
 	var bad []string
 	uses := 0
-	HxEach(fn, func(in ssa.Instruction) {
+	HtmEach(fn, func(in ssa.Instruction) {
 		v, ok := in.(ssa.Value)
 		if !ok {
 			return
@@ -431,7 +431,7 @@ func c40RawTextSets(c *Ctx) {
 		se, ok := tag.(*ast.SelectorExpr)
 		return ok && se.Sel.Name == "Data"
 	}
-	for _, sw := range c.P.HxSwitches("html.childTextNodesAreLiteral", isDataSel) {
+	for _, sw := range c.P.HtmSwitches("html.childTextNodesAreLiteral", isDataSel) {
 		for _, cl := range sw {
 			if cl.Default {
 				continue
@@ -454,7 +454,7 @@ func c40RawTextSets(c *Ctx) {
 		b, isB := info.TypeOf(tag).Underlying().(*types.Basic)
 		return isB && b.Kind() == types.Uint8
 	}
-	for _, sw := range c.P.HxSwitches("(*html.Tokenizer).readStartTag", isIdent) {
+	for _, sw := range c.P.HtmSwitches("(*html.Tokenizer).readStartTag", isIdent) {
 		for _, cl := range sw {
 			if cl.Default {
 				continue
@@ -476,13 +476,13 @@ func c40RawTextSets(c *Ctx) {
 	// RCDATA names: compared against rawTag in readRawOrRCDATA's textIsRaw computation
 	rcdata := map[string]bool{}
 	if fn := c.MustFn("(*html.Tokenizer).readRawOrRCDATA"); fn != nil {
-		HxEach(fn, func(in ssa.Instruction) {
+		HtmEach(fn, func(in ssa.Instruction) {
 			b, ok := in.(*ssa.BinOp)
 			if !ok || b.Op != token.NEQ {
 				return
 			}
 			for _, pair := range [][2]ssa.Value{{b.X, b.Y}, {b.Y, b.X}} {
-				if s, isConst := HxConstStr(pair[1]); isConst && s != "" && Term(pair[0]) == "$r.rawTag" {
+				if s, isConst := HtmConstStr(pair[1]); isConst && s != "" && Term(pair[0]) == "$r.rawTag" {
 					rcdata[s] = true
 				}
 			}
